@@ -12,9 +12,12 @@ LEVEL_NOTE_COMMON = (
     "harness + generators + diff that tie the hand-written model to the code; g++/libstdc++/libm."
 )
 
+# checks that the coordinator has verified on the unchanged tree (several seeds); a check
+# module that exists but is not listed here is work in progress and is not claimed
+ENABLED = ["C12", "C13"]
+
 CHECKS, HARNESSES = {}, {}
-for _i in range(1, 21):
-    _pid = "C%02d" % _i
+for _pid in ENABLED:
     if os.path.exists(os.path.join(HERE, "checks", _pid.lower() + ".py")):
         _m = importlib.import_module("checks." + _pid.lower())
         if getattr(_m, "MANIFEST", None):
